@@ -732,11 +732,27 @@ func builtinKeys(i *Interpreter, args []Expr, env *Environment) (interface{}, er
 	if !ok {
 		return nil, fmt.Errorf("keys() expects an object argument, got %T", objArg)
 	}
-	keys := make([]interface{}, 0, len(obj))
-	for k := range obj {
+	// In ascending key order: Go's map iteration order is random, and the
+	// result of a program must not depend on it.
+	names := sortedKeys(obj)
+	keys := make([]interface{}, 0, len(names))
+	for _, k := range names {
 		keys = append(keys, k)
 	}
 	return keys, nil
+}
+
+// sortedKeys returns the keys of an object in ascending order. Objects are Go
+// maps, whose iteration order is deliberately random: everything that walks an
+// object (keys(), for k, v in obj) goes through this so that a program yields
+// the same value every time it runs on the same input.
+func sortedKeys(obj map[string]interface{}) []string {
+	names := make([]string, 0, len(obj))
+	for k := range obj {
+		names = append(names, k)
+	}
+	sort.Strings(names)
+	return names
 }
 
 // callCallable invokes a callable (LambdaClosure or Function) with the given arguments.
